@@ -32,6 +32,15 @@ def step (_ : Unit) (fields : List String) (impl : String) : Unit × Reply :=
       let ok := i > 0 && k > 0 && holdsX k o
       ((), ⟨"accepted-by-model=" ++ boolStr ok, ok, true, ok, "-"⟩)
     | _, _ => ((), .bad)
+  | ["xclose", i, a] =>
+    match i.toNat?, a.toNat? with
+    | some i, some _ =>
+      let m := kvs impl
+      let o : XObs := ⟨nat m "pings", (m.lookup "connclosed") == some "true", nat m "errh", nat m "disc",
+                       (m.lookup "returned") == some "true", nat m "afterret"⟩
+      let ok := i > 0 && holdsXClose o
+      ((), ⟨"accepted-by-model=" ++ boolStr ok, ok, true, ok, "-"⟩)
+    | _, _ => ((), .bad)
   | _ => ((), .bad)
 
 def handler : Handler := ⟨Unit, fun _ => (), step⟩
